@@ -19,6 +19,12 @@ func init() {
 			Name: "min",
 			Args: []*slip.DocArg{
 				{
+					Name: "real",
+					Type: "real",
+					Text: "The first number.",
+				},
+				{Name: "&rest"},
+				{
 					Name: "reals",
 					Type: "real",
 					Text: "The numbers to find the minimum of.",
